@@ -289,4 +289,358 @@ theorem topExpr2 {e : BExp} {r : String} {iret : Nat} {s t : CState}
   | ite a b c => simp [wfExp] at hwf
   | imp a b => simp [wfExp] at hwf
 
+/-! ### the statement loop -/
+
+theorem mapQubit_run2 {name : String} {index : Nat} {promote : Bool} {u : Unit} {s s' : CState}
+    (h : (mapQubit name index promote).run s = .ok (u, s')) (hg : Good s) :
+    s'.qc.gates = s.qc.gates ∧ s'.qc.gatesComputed = s.qc.gatesComputed ∧ s'.qc.marked = s.qc.marked ∧
+    s'.qc.free = s.qc.free ∧ s'.qc.numQubits = s.qc.numQubits ∧ s'.expq = s.expq ∧
+    (∀ x ∈ s'.qc.anc, x ∈ s.qc.anc) ∧ (promote = true → index ∉ s'.qc.anc) ∧
+    (∀ x ∈ s.qc.anc, x ≠ index → x ∈ s'.qc.anc) ∧
+    dictGet? s'.qc.qmap name = some index ∧
+    (∀ x, scratchName x = false → x ≠ name → dictGet? s'.qc.qmap x = dictGet? s.qc.qmap x) := by
+  unfold mapQubit at h
+  dsimp only at h
+  obtain ⟨qc, s1, hq, h⟩ := run_bind_ok.mp h
+  obtain ⟨rfl, rfl⟩ := getQC_run hq
+  split at h
+  · next hc =>
+    simp only [Bool.and_eq_true] at hc
+    have hia : index ∈ s1.qc.anc := by simpa using hc.2
+    obtain ⟨u2, s3, hm1, hmatch⟩ := run_bind_ok.mp h
+    have := modQC_run hm1; subst this
+    have hne : index ∉ s1.qc.anc.erase index := by
+      rw [hg.anc_nodup.mem_erase_iff]; simp
+    split at hmatch
+    · next k hk =>
+      obtain ⟨u3, s4, hm2, hm3⟩ := run_bind_ok.mp hmatch
+      have := modQC_run hm2; subst this
+      have := modQC_run hm3; subst this
+      have hks : scratchName k = true := hg.anc_named _ (keyByIndex?_mem hk) hia
+      refine ⟨rfl, rfl, rfl, rfl, rfl, rfl, fun x hx => List.mem_of_mem_erase hx, fun _ => hne,
+        fun x hx hxi => (List.mem_erase_of_ne hxi).mpr hx, dictGet?_dictSet_self, fun x hx hxn => ?_⟩
+      show dictGet? (dictSet _ _ _) _ = _
+      rw [dictGet?_dictSet_ne hxn]
+      exact dictGet?_filter_ne (by rintro rfl; rw [hks] at hx; cases hx)
+    · have := modQC_run hmatch; subst this
+      refine ⟨rfl, rfl, rfl, rfl, rfl, rfl, fun x hx => List.mem_of_mem_erase hx, fun _ => hne,
+        fun x hx hxi => (List.mem_erase_of_ne hxi).mpr hx, dictGet?_dictSet_self, fun x hx hxn => ?_⟩
+      show dictGet? (dictSet _ _ _) _ = _
+      rw [dictGet?_dictSet_ne hxn]
+  · next hc =>
+    have := modQC_run h; subst this
+    refine ⟨rfl, rfl, rfl, rfl, rfl, rfl, fun x hx => hx, fun hpt hia => hc ?_, fun x hx _ => hx,
+      dictGet?_dictSet_self, fun x hx hxn => ?_⟩
+    · rw [hpt]; simpa using hia
+    · show dictGet? (dictSet _ _ _) _ = _
+      rw [dictGet?_dictSet_ne hxn]
+
+mutual
+theorem compKeys_notSym : ∀ (e c : BExp), c ∈ compKeys e → isSym c = false
+  | .not a, c, h => by
+    simp only [compKeys, List.mem_cons] at h
+    rcases h with rfl | h
+    · rfl
+    · exact compKeys_notSym a c h
+  | .and l, c, h => by
+    simp only [compKeys, List.mem_cons] at h
+    rcases h with rfl | h
+    · rfl
+    · exact compKeysList_notSym l c h
+  | .or l, c, h => by
+    simp only [compKeys, List.mem_cons] at h
+    rcases h with rfl | h
+    · rfl
+    · exact compKeysList_notSym l c h
+  | .xor l, c, h => by
+    simp only [compKeys, List.mem_cons] at h
+    rcases h with rfl | h
+    · rfl
+    · exact compKeysList_notSym l c h
+  | .sym _, _, h => by simp [compKeys] at h
+  | .tt, _, h => by simp [compKeys] at h
+  | .ff, _, h => by simp [compKeys] at h
+  | .ite _ _ _, _, h => by simp [compKeys] at h
+  | .imp _ _, _, h => by simp [compKeys] at h
+theorem compKeysList_notSym : ∀ (l : List BExp) (c : BExp), c ∈ compKeysList l → isSym c = false
+  | [], _, h => by simp [compKeysList] at h
+  | a :: as, c, h => by
+    simp only [compKeysList, List.mem_append] at h
+    rcases h with h | h
+    · exact compKeys_notSym a c h
+    · exact compKeysList_notSym as c h
+end
+
+theorem beq_sym_false {x c : BExp} (hx : isSym x = true) (hc : isSym c = false) : (x == c) = false := by
+  cases x <;> cases c <;> first | rfl | simp_all [isSym]
+
+/-- invariant between two definitions -/
+structure Inv (scope : List String) (ρ : Env) (σ0 : FState) (done : List BExp) (s : CState) : Prop where
+  pre : Pre2 scope ρ σ0 s
+  nomark : s.qc.marked = []
+  comp : ∀ g ∈ s.qc.gatesComputed.toList, ¬ Avail s g.target
+  cache : ∀ p ∈ s.expq, isSym p.1 = true ∨ p.1 ∈ done
+
+theorem foldl_setIns_nodup : ∀ (l f : List Nat), f.Nodup → (l.foldl setIns f).Nodup
+  | [], _, h => h
+  | a :: l, f, h => foldl_setIns_nodup l (setIns f a) (setIns_nodup h)
+
+theorem mem_foldl_setIns_of_mem : ∀ (l f : List Nat) (x : Nat), x ∈ f ∨ x ∈ l → x ∈ l.foldl setIns f
+  | [], f, x, h => by
+    rcases h with h | h
+    · exact h
+    · cases h
+  | a :: l, f, x, h => by
+    apply mem_foldl_setIns_of_mem l (setIns f a) x
+    rcases h with h | h
+    · exact Or.inl (mem_setIns_of_mem h)
+    · rcases List.mem_cons.mp h with rfl | h
+      · exact Or.inl mem_setIns_self
+      · exact Or.inr h
+
+theorem envOf_cons_ne {r n : String} {v : Bool} {env : List (String × Bool)} (h : n ≠ r) :
+    envOf ((r, v) :: env) n = envOf env n := by
+  have : (r == n) = false := by simpa using fun e => h e.symm
+  simp [envOf, List.find?_cons, this]
+
+theorem envOf_cons_self {r : String} {v : Bool} {env : List (String × Bool)} :
+    envOf ((r, v) :: env) r = v := by
+  simp [envOf, List.find?_cons]
+
+/-- **the statement loop on straight-line definition lists**: the invariant `Inv` is kept by every definition
+(the inline `uncompute` gives back zeroed ancillas: `bennettF`), the scope grows by the defined names, the
+environment follows `evalDefs` -/
+theorem defs_sem : ∀ (defs : List (String × BExp)) (scope : List String) (env : List (String × Bool))
+    (done : List BExp) {u : Unit} {s s' : CState},
+    (compileDefs defs).run s = .ok (u, s') → Inv scope (envOf env) σ0 done s →
+    slDefs scope defs = true → Distinct (done ++ defs.flatMap (fun p => compKeys p.2)) →
+    ∃ scope' done', Inv scope' (envOf (evalDefs defs env)) σ0 done' s' ∧ (∀ n ∈ scope, n ∈ scope') ∧
+      (∀ p ∈ defs, p.1 ∈ scope')
+  | [], scope, env, done, u, s, s', h, hinv, _, _ => by
+    unfold compileDefs at h
+    obtain ⟨_, rfl⟩ := run_pure_ok.mp h
+    exact ⟨scope, done, hinv, fun n hn => hn, fun p hp => absurd hp List.not_mem_nil⟩
+  | (r, e) :: rest, scope, env, done, u, s, s', h, hinv, hsl, hdist => by
+    unfold compileDefs at h
+    dsimp only at h
+    obtain ⟨iret, t1, he, k1⟩ := run_bind_ok.mp h
+    obtain ⟨u4, t2, hset, k2⟩ := run_bind_ok.mp k1
+    obtain ⟨u5, t3, hmap, k3⟩ := run_bind_ok.mp k2
+    obtain ⟨unc, t4, hunc, k4⟩ := run_bind_ok.mp k3
+    obtain ⟨u6, t5, hrm, k5⟩ := run_bind_ok.mp k4
+    -- the class
+    simp only [slDefs, Bool.and_eq_true, Bool.not_eq_true', List.contains_eq_mem, decide_eq_false_iff_not] at hsl
+    obtain ⟨⟨⟨hres, hnr⟩, hwf⟩, hrest⟩ := hsl
+    have hrs : scratchName r = false := by
+      simp only [reservedName, Bool.or_eq_false_iff] at hres; exact hres.2
+    have hrT : r ≠ "TRUE" ∧ r ≠ "FALSE" := by
+      simp only [reservedName, Bool.or_eq_false_iff, beq_eq_false_iff_ne, ne_eq] at hres
+      exact ⟨hres.1.2, hres.1.1⟩
+    have hr : ∀ m, Known scope m → m ≠ r := by
+      rintro m (hm | rfl | rfl)
+      · rintro rfl; exact hnr hm
+      · exact fun e => hrT.1 e.symm
+      · exact fun e => hrT.2 e.symm
+    have hd0 : Distinct (done ++ (compKeys e ++ rest.flatMap (fun p => compKeys p.2))) := by
+      simpa [List.flatMap_cons] using hdist
+    have hd1 := List.pairwise_append.mp hd0
+    have hdistE : Distinct (compKeys e) := (List.pairwise_append.mp hd1.2.1).1
+    have hcache : ∀ p ∈ s.expq, ∀ c ∈ compKeys e, (p.1 == c) = false := by
+      intro p hp c hc
+      rcases hinv.cache p hp with h' | h'
+      · exact beq_sym_false h' (compKeys_notSym e c hc)
+      · exact hd1.2.2 p.1 h' c (List.mem_append_left _ hc)
+    obtain ⟨hp1, sem1, hnav1, hval1⟩ := topExpr2 (wo := false) he hinv.pre hwf hdistE hr hcache
+    obtain ⟨l, hgl, hcl, htl, hql⟩ := sem1.seg
+    have hM : ∀ m ∈ t1.qc.marked, Avail s m ∧ ¬ Avail t1 m ∧ m ≠ iret ∧ Tgt t1 m := by
+      intro m hm
+      rcases sem1.marks m hm with h' | h'
+      · rw [hinv.nomark] at h'; cases h'
+      · exact ⟨h'.1.1, h'.1.2.1, h'.1.2.2, h'.2 rfl⟩
+    -- `expqmap[sym] = iret`, `map_qubit`
+    obtain ⟨hqc2, hk2⟩ := expqSet_run hset
+    have hlt1 : iret < t1.qc.numQubits := notAvail_lt hnav1
+    have hg2 : Good t2 := (expqSet_ok (B := fun _ => True) hset hp1.good hlt1).good
+    have hprom : (!r.startsWith "__") = true := by
+      simp only [scratchName, Bool.or_eq_false_iff] at hrs
+      simp [hrs.1]
+    obtain ⟨m1, m2, m3, m4, m5, m6, m7, m8, m9, m10, m11⟩ := mapQubit_run2 hmap hg2
+    have hg3 : Good t3 := (mapQubit_ok (B := fun _ => True) hmap hg2 (by rw [hqc2]; exact hlt1) trivial
+      (by intro hpf; rw [hprom] at hpf; cases hpf)).1.good
+    -- the inline `uncompute`
+    obtain ⟨c1, c2, c3, c4, c5, c6, c7, c8, c9⟩ := uncompute_sem (σ0 := σ0) hunc hg3
+    have hg4 : Good t4 := (uncompute_ok (B := fun _ => True) hunc hg3).good
+    have hqc5 := expqRemove_run hrm
+    have hg5 : Good t5 := (expqRemove_ok (B := fun _ => True) hrm hg4).good
+    have hex5 : ∀ p ∈ t5.expq, p ∈ t4.expq := by
+      unfold expqRemove at hrm
+      have := run_modify_ok.mp hrm; subst this
+      exact fun p hp => (List.mem_filter.mp hp).1
+    have hmk3 : t3.qc.marked = t1.qc.marked := by rw [m3, hqc2]
+    have hcomp3 : t3.qc.gatesComputed.toList = s.qc.gatesComputed.toList ++ l := by rw [m2, hqc2, hcl]
+    have hMc : ∀ q, t1.qc.marked.contains q = true ↔ q ∈ t1.qc.marked := by intro q; simp
+    have hrep : rep t3.qc.marked t3.qc.gatesComputed.toList = rep t1.qc.marked l := by
+      rw [hcomp3, hmk3]; unfold rep; rw [List.filter_append]
+      have : s.qc.gatesComputed.toList.filter (fun g => t1.qc.marked.contains g.target) = [] :=
+        List.filter_eq_nil_iff.mpr (fun g hg hc => hinv.comp g hg (hM _ ((hMc _).mp hc)).1)
+      rw [this, List.nil_append]
+    have hcur31 : cur σ0 t3 = cur σ0 t1 := cur_congr (m1.trans (by rw [hqc2]))
+    have hok : ∀ g ∈ l, g.cls.isMCXLike = true ∧ g.wires.Nodup ∧ g.wires ≠ [] := by
+      intro g hg
+      have hgo := hp1.good.comp_ok g (by rw [hcl]; exact List.mem_append_right _ hg)
+      refine ⟨hgo.1, hgo.2.1, fun hnil => ?_⟩
+      have := mcx_nq_pos hgo.1
+      rw [← hgo.2.2.2, hnil] at this
+      exact absurd this (Nat.lt_irrefl _)
+    obtain ⟨bM, bN⟩ := bennettF t1.qc.marked (cur σ0 t1) l (cur σ0 s) hok
+      (CtlOK.mono (fun f c hq => by
+        rcases hq with hm | ⟨n, hk, hq', hv⟩
+        · exact Or.inl ((hMc c).mpr hm)
+        · exact Or.inr (by rw [hv, (hp1.tbl n c hk hq').2.2])) l _ (hql rfl)) (cur_of_gates hgl).symm
+    have hcur4 : cur σ0 t4 = runF (rep t1.qc.marked l) (cur σ0 t1) := by rw [c1, hrep, hcur31]
+    have hcur5 : cur σ0 t5 = cur σ0 t4 := by unfold cur; rw [hqc5]
+    have hv4M : ∀ q ∈ t1.qc.marked, cur σ0 t5 q = false := by
+      intro q hq
+      rw [hcur5, hcur4, bM q ((hMc q).mpr hq)]
+      exact hinv.pre.zero q (hM q hq).1
+    have hv4N : ∀ q, q ∉ t1.qc.marked → cur σ0 t5 q = cur σ0 t1 q := by
+      intro q hq
+      rw [hcur5, hcur4]
+      exact bN q (by
+        cases hc : t1.qc.marked.contains q
+        · rfl
+        · exact absurd ((hMc q).mp hc) hq)
+    -- bookkeeping of the final state
+    have hfree5 : ∀ x, x ∈ t5.qc.free ↔ (x ∈ t1.qc.free ∨ x ∈ t1.qc.marked) := by
+      intro x
+      rw [hqc5, c6, hmk3, m4, hqc2]
+      exact ⟨mem_foldl_setIns, mem_foldl_setIns_of_mem _ _ x⟩
+    have hnq5 : t5.qc.numQubits = t1.qc.numQubits := by rw [hqc5, c3, m5, hqc2]
+    have hqm5 : t5.qc.qmap = t3.qc.qmap := by rw [hqc5, c2]
+    have hanc5 : t5.qc.anc = t3.qc.anc := by rw [hqc5, c4]
+    have hav5 : ∀ x, Avail t5 x ↔ (Avail t1 x ∨ x ∈ t1.qc.marked) := by
+      intro x
+      unfold Avail
+      rw [hfree5, hnq5]
+      constructor
+      · rintro ((h' | h') | h')
+        · exact Or.inl (Or.inl h')
+        · exact Or.inr h'
+        · exact Or.inl (Or.inr h')
+      · rintro ((h' | h') | h')
+        · exact Or.inl (Or.inl h')
+        · exact Or.inr h'
+        · exact Or.inl (Or.inr h')
+    have hiretM : iret ∉ t1.qc.marked := fun hm => (hM iret hm).2.2.1 rfl
+    have hmk5 : t5.qc.marked = [] := by
+      rw [hqc5, c7, hmk3]
+      apply List.filter_eq_nil_iff.mpr
+      intro m hm
+      obtain ⟨g, hg, ht⟩ := (hM m hm).2.2.2
+      have : g.target ∈ unc := c8 g (by rw [m2, hqc2]; exact hg) (by rw [hmk3, ht]; exact (hMc m).mpr hm)
+      rw [ht] at this
+      simp [this]
+    -- the new scope and environment
+    have hρ : ∀ n, n ≠ r → envOf ((r, e.eval (envOf env)) :: env) n = envOf env n := fun n hn => envOf_cons_ne hn
+    have hkv : ∀ n, n ≠ r → kval (envOf ((r, e.eval (envOf env)) :: env)) n = kval (envOf env) n := by
+      intro n hn; unfold kval; rw [hρ n hn]
+    have hkvr : kval (envOf ((r, e.eval (envOf env)) :: env)) r = e.eval (envOf env) := by
+      unfold kval; rw [if_neg hrT.1, if_neg hrT.2, envOf_cons_self]
+    have hqmK : ∀ n, Known scope n → dictGet? t5.qc.qmap n = dictGet? t1.qc.qmap n := by
+      intro n hk
+      rw [hqm5, m11 n (by
+        rcases hk with hk | rfl | rfl
+        · have := hinv.pre.scopeOK n hk
+          simp only [reservedName, Bool.or_eq_false_iff] at this; exact this.2
+        · decide +kernel
+        · decide +kernel) (hr n hk), hqc2]
+    have hinv' : Inv (scope ++ [r]) (envOf ((r, e.eval (envOf env)) :: env)) σ0 (done ++ compKeys e) t5 := by
+      refine ⟨⟨hg5, ?_, ?_, ?_, ?_, ?_, ?_, ?_⟩, hmk5, ?_, ?_⟩
+      · -- scratch space zero
+        intro q hq
+        rcases (hav5 q).mp hq with h' | h'
+        · by_cases hqm : q ∈ t1.qc.marked
+          · exact hv4M q hqm
+          · rw [hv4N q hqm]; exact hp1.zero q h'
+        · exact hv4M q h'
+      · -- known names
+        intro n q hk hq
+        have hcase : n = r ∨ Known scope n := by
+          rcases hk with hk | hk | hk
+          · rcases List.mem_append.mp hk with hk | hk
+            · exact Or.inr (Or.inl hk)
+            · exact Or.inl (by simpa using hk)
+          · exact Or.inr (Or.inr (Or.inl hk))
+          · exact Or.inr (Or.inr (Or.inr hk))
+        rcases hcase with rfl | hk'
+        · rw [hqm5, m10] at hq
+          cases hq
+          refine ⟨fun hf => ?_, by rw [hanc5]; exact m8 hprom, by rw [hv4N _ hiretM, hkvr]; exact hval1⟩
+          rcases (hfree5 _).mp hf with h' | h'
+          · exact hnav1 (Or.inl h')
+          · exact hiretM h'
+        · rw [hqmK n hk'] at hq
+          obtain ⟨t1f, t1a, t1v⟩ := hp1.tbl n q hk' hq
+          have hqM : q ∉ t1.qc.marked := fun hm => t1a (hp1.mkAnc q hm)
+          refine ⟨fun hf => ?_, fun ha => t1a (by rw [← hqc2]; exact m7 q (by rw [← hanc5]; exact ha)), ?_⟩
+          · rcases (hfree5 _).mp hf with h' | h'
+            · exact t1f h'
+            · exact hqM h'
+          · rw [hv4N q hqM, hkv n (hr n hk')]; exact t1v
+      · -- names in scope are bound
+        intro n hn
+        rcases List.mem_append.mp hn with hn | hn
+        · obtain ⟨q, hq⟩ := hp1.bound n hn
+          exact ⟨q, by rw [hqmK n (Or.inl hn)]; exact hq⟩
+        · have : n = r := by simpa using hn
+          rw [this]; exact ⟨iret, by rw [hqm5]; exact m10⟩
+      · intro n hn
+        rcases List.mem_append.mp hn with hn | hn
+        · exact hinv.pre.scopeOK n hn
+        · have : n = r := by simpa using hn
+          rw [this]; exact hres
+      · rw [hqc5, c6, hmk3, m4, hqc2]; exact foldl_setIns_nodup _ _ hp1.freeNd
+      · intro q hq
+        have hq1 : q ∈ t1.qc.anc := by
+          rcases (hfree5 q).mp hq with h' | h'
+          · exact hp1.freeAnc q h'
+          · exact hp1.mkAnc q h'
+        have hqi : q ≠ iret := by
+          rintro rfl
+          rcases (hfree5 _).mp hq with h' | h'
+          · exact hnav1 (Or.inl h')
+          · exact hiretM h'
+        rw [hanc5]; exact m9 q (by rw [hqc2]; exact hq1) hqi
+      · intro m hm; rw [hmk5] at hm; cases hm
+      · -- gates_computed targets allocated qubits
+        intro g hg
+        rw [hqc5, c9, hmk3] at hg
+        obtain ⟨hg1, hg2⟩ := List.mem_filter.mp hg
+        have hnM : g.target ∉ t1.qc.marked := fun hm => by
+          rw [(hMc _).mpr hm] at hg2; cases hg2
+        have hna1 : ¬ Avail t1 g.target := by
+          rw [hcomp3] at hg1
+          rcases List.mem_append.mp hg1 with h' | h'
+          · exact fun ha => hinv.comp g h' (sem1.avail _ ha)
+          · exact htl g h'
+        exact fun ha => ((hav5 _).mp ha).elim hna1 hnM
+      · -- cache keys
+        intro p hp
+        have hp4 := hex5 p hp
+        have hp3 := c5 p hp4
+        rw [m6] at hp3
+        rcases hk2 p hp3 with ⟨p0, hp0, e0⟩ | h'
+        · rcases sem1.keys p0 hp0 with ⟨p00, hp00, e00⟩ | h'
+          · rw [← e0, ← e00]
+            exact (hinv.cache p00 hp00).imp id (fun h' => List.mem_append_left _ h')
+          · rw [← e0]; exact Or.inr (List.mem_append_right _ h')
+        · rw [h']; exact Or.inl rfl
+    obtain ⟨scope', done', hfin, hsub, hmem⟩ := defs_sem rest (scope ++ [r]) ((r, e.eval (envOf env)) :: env)
+      (done ++ compKeys e) k5 hinv' hrest (by
+        rw [List.append_assoc]; exact hd0)
+    refine ⟨scope', done', hfin, fun n hn => hsub n (List.mem_append_left _ hn), fun p hp => ?_⟩
+    rcases List.mem_cons.mp hp with rfl | hp
+    · exact hsub r (by simp)
+    · exact hmem p hp
+
 end QV.Compiler
